@@ -157,6 +157,9 @@ func enumC15Ord(tier string, e *engine.Emitter) {
 		}
 	}
 	k := thin(Keyed(2, false), 24)
+	if bound >= 2 {
+		k = thin(Keyed(2, false), 14)
+	}
 	hk := engine.HS("c15ord:SETKEYS:id")
 	for i, at := range k.Texts {
 		for j, bt := range k.Texts {
